@@ -27,7 +27,7 @@ POLICIES = ["lf", "cr", "crlf", "lf_crlf", "cr_crlf"]
 MODES = ["eager", "lazy"]
 INITS = [(0, 1, 1), (0, 3, 1), (7, 3, 5), (100, 1, 1), (0, 1, 4)]
 MAXK = 12          # harness limit (template parameter of rep<>)
-WAYS = ("bump", "error", "parse", "until")
+WAYS = ("bump", "error", "parse", "until", "notone", "notrange", "rematch")
 
 # ----------------------------------------------------------------------------- oracle
 # From the property text and doc/Inputs-and-Parsing.md only.
@@ -315,7 +315,7 @@ def evaluate(ctx, impl_lines, model_lines, ncases):
         if seen_ways.get(k, set()) != set(WAYS):
             missing += 1
             if missing <= 5:
-                ctx.diff("implementation did not report all of W=bump,error,parse,until", " ".join(str(x) for x in k),
+                ctx.diff("implementation did not report all of W=" + ",".join(WAYS), " ".join(str(x) for x in k),
                          impl=",".join(sorted(seen_ways.get(k, set()))), model=",".join(WAYS))
     diffs += missing
     # ---- violations
